@@ -20,6 +20,7 @@ import RpylibModel.Proofs.Lemmas.C11Margin
 import RpylibModel.Proofs.Lemmas.C11IndepDep
 import RpylibModel.Proofs.Lemmas.C11Convex
 import RpylibModel.Proofs.Lemmas.C11Real
+import RpylibModel.Proofs.Lemmas.C11Inf
 import Mathlib.Data.Real.Sign
 import Mathlib.Tactic.Linarith
 import Mathlib.Tactic.Ring
@@ -175,6 +176,16 @@ theorem clayton1_two_increasing (eta : Rat) (h0 : 0 ≤ eta) (h1 : eta ≤ 1) (a
     EVal.Nonneg (volume (clayton1 eta) [a1, a2] [b1, b2]) := by
   rw [clayton1_volume_two eta a1 a2 b1 b2 hP]
   exact F2_two_increasing gen1_clayton eta h0 h1 a1 b1 a2 b2 hP l1 l2
+
+/-- **Clayton θ = 1 as the floats compute it, 0 < η < 1: every rectangle of (−∞,∞]²** (sides `(a,b]` with `a ≠ +∞`,
+    `b ≠ −∞`) gets a non-negative volume — a finite number, or +∞ exactly when a corner has two infinite entries;
+    never NaN.  (For η ∈ {0,1} the second case is NaN: `clayton1_eta0_allinf_nan`, `clayton1_eta1_allinf_nan`.) -/
+theorem clayton1_two_increasing_all (eta : Rat) (h0 : 0 < eta) (h1 : eta < 1) (a1 b1 a2 b2 : Ext Rat)
+    (l1 : Ext.LE a1 b1) (l2 : Ext.LE a2 b2) (na1 : a1 ≠ .posInf) (na2 : a2 ≠ .posInf) (nb1 : b1 ≠ .negInf)
+    (nb2 : b2 ≠ .negInf) : EVal.Nonneg (volume (clayton1 eta) [a1, a2] [b1, b2]) := by
+  by_cases hP : Adm a1 b1 a2 b2
+  · exact clayton1_two_increasing eta h0.le h1.le a1 b1 a2 b2 hP l1 l2
+  · rw [(clayton1_volume_finOrPos eta h0 h1 a1 a2 b1 b2 na1 na2 nb1 nb2).2 hP]; trivial
 
 /-- independent copula: every rectangle of the extended plane without one of the corners at which the code deviates
     from Kallsen–Tankov (`indepBad`) gets non-negative volume -/
